@@ -7,11 +7,11 @@ git -C /repo worktree add -q --detach $WT HEAD || exit 3
 cp "$DEMO" $WT/tests/$NAME.rs
 cd $WT
 export CARGO_TARGET_DIR=/var/tmp/confirm-target
-r0=$(cargo test --offline --test $NAME 2>&1 | grep -E "^test result" | head -1)
+r0=$(cargo test --offline $FEATURES --test $NAME 2>&1 | grep -E "^test result" | head -1)
 git apply "$PATCH" || { echo "APPLY-FAILED"; cd /; git -C /repo worktree remove --force $WT; exit 3; }
 r1=$(cargo test --offline --lib 2>&1 | grep -E "^test result|^error" | head -2)
 r2=$(cargo test --offline --doc 2>&1 | grep -E "^test result|^error" | head -1)
-r3=$(cargo test --offline --test $NAME 2>&1 | grep -E "^test result|^error" | head -1)
+r3=$(cargo test --offline $FEATURES --test $NAME 2>&1 | grep -E "^test result|^error" | head -1)
 echo "demo on HEAD:        $r0"
 echo "stock lib with patch: $r1"
 echo "stock doc with patch: $r2"
